@@ -63,6 +63,9 @@ structure Layout where
 structure Cfg where
   layout : String → Option Layout
   defaultDT : DT
+  /-- does the base-class `LinearOperator.to` leave integer / boolean tensors alone when the target dtype is floating?
+      (generated from the source: today it casts every tensor argument and keyword, D18 / D32) -/
+  baseToGuard : Bool
 
 /-! ### flatten -/
 
@@ -432,7 +435,7 @@ def convL (cfg : Cfg) (m : Mode) (guard : Bool) : List Op → Option (List Op)
   | x :: xs =>
     let hd : Option Op :=
       match x with
-      | .leaf l => some (.leaf (convLeaf m guard l))
+      | .leaf l => some (.leaf (convLeaf m (guard || cfg.baseToGuard) l))
       | .val v => some (.val v)
       | .node c a dn d nkw hid =>
         match m with
